@@ -252,8 +252,14 @@ def fresh(m):
 
 # ------------------------------------------------------------------ oracle (real API only)
 
-def oracle(ctx, m, opt, fields, fd=None, record=True):
-    """the property stated on the real implementation; returns list of (signature, what, observed)"""
+def oracle(ctx, m, opt, fields, fd=None, record=True, settle=False):
+    """the property stated on the real implementation; returns list of (signature, what, observed).
+    `settle` (stream same-object, volume weighting only): femio keeps the element volumes it has stored (elemental_data
+    'volume', C19 family) when node positions are replaced, and refreshes them as a side effect of some later calls, so the
+    first volume-weighted operator after the update may be built with other (still positive) weights than the next one.
+    Constants -> 0 and affine exactness hold for every positive weight function and are asserted on every call; the clause
+    convenience = explicit matrices compares two successive calls and is therefore evaluated on matrices rebuilt
+    immediately before the convenience call (the difference of the first call is counted as an observation, not asserted)."""
     fails = []
     fd = fd or fresh(m)
     span, adj = spanning_flags(fd, m, opt)
@@ -324,6 +330,10 @@ def oracle(ctx, m, opt, fields, fd=None, record=True):
                                'n_bad': int(len(bad)), 'field': fld}))
                 break
     # clause 3: convenience = explicit matrices by hand, any field
+    if settle:
+        g2 = MG.quiet(fd.calculate_spatial_gradient_adjacency_matrices, **call_kwargs(opt))
+        info['first_call_differs_from_next'] = not np.array_equal(G, dense3(g2), equal_nan=True)
+        g = g2
     rng = np.random.default_rng(opt.get('fseed', 0))
     data = rng.normal(size=(n_all, 2)) * 10
     byhand = np.stack([x.dot(data[sel]) for x in g], axis=1)
@@ -542,14 +552,14 @@ def history_case(ctx, m, m2, opt0, opt, fields, record=True):
     -> 0, affine exactness and convenience = matrices are evaluated by the ordinary oracle against the NEW positions (what
     a fresh object built from them gives), and the matrices are compared with the model computed from the new positions.
     Weights are whatever the real call uses (femio keeps the stored element volumes of the old positions: the theorems and
-    the oracle hold for every positive weight function, and the model takes the captured weights)."""
+    the oracle hold for every positive weight function, and the model takes the captured weights; see `settle` in oracle)."""
     fd = fresh(m)
     try:
         MG.quiet(fd.calculate_spatial_gradient_adjacency_matrices, **call_kwargs(opt0))
     except Exception as e:      # singular first geometry: the history still continues on the same object
         ctx.count(f'stream:same-object:first call raised {type(e).__name__}')
     set_positions(fd, m2)
-    fails, info = oracle(ctx, m2, opt, fields, fd=fd)
+    fails, info = oracle(ctx, m2, opt, fields, fd=fd, settle=bool(opt['consider_volume']))
     fails = [('same-object:' + sig, 'after `nodes.data = new positions` on the same object: ' + what, obs)
              for sig, what, obs in fails]
     if not record:
@@ -564,6 +574,9 @@ def history_case(ctx, m, m2, opt0, opt, fields, record=True):
     ctx.count('stream:same-object:first call ' + ('same options' if opt0 == opt else 'other options'))
     if info.get('singular'):
         ctx.count('stream:same-object:non-spanning (outside the quantifier)')
+    if info.get('first_call_differs_from_next'):
+        ctx.count('stream:same-object:observation only: first volume-weighted operator after the update differs from the next '
+                  'one (stored element volumes of the old positions, C19 family; not asserted)')
     for sig, what, obs in fails:
         ctx.fail(sig, what, caseinfo, obs)
     if ctx.driver is not None and not info.get('singular'):
